@@ -1,7 +1,7 @@
 //! C01 — muxed samples read back exactly (mux -> demux fidelity).
 use super::PropMeta;
 use crate::engine::{guard, guarded, Check, Ctx, Failure, Fnv};
-use crate::mux::{self, CallOutcome, MKind, MOp, MTrack, MuxCase, MuxRun};
+use crate::mux::{self, MKind, MOp, MTrack, MuxCase, MuxRun};
 use crate::refmp4::sample_bytes;
 use crate::{ensure, fail};
 use serde_json::Value;
@@ -147,25 +147,17 @@ pub fn oracle(ctx: &mut Ctx, case: &MuxCase) -> Check {
     if let Some(f) = mux::first_panic(&run) {
         return Err(f);
     }
-    // calls with a valid track id must be accepted or the history is outside the property
-    let mut rejected_valid = false;
-    let mut oi = 0usize;
-    for (name, out) in &run.calls {
-        match (name.as_str(), out) {
-            ("write_sample-accepted-unknown-track", _) => fail!("c01:accepted-bad-track", "write_sample with an unknown track id returned Ok"),
-            ("write_sample", o) => {
-                let op = &case.ops[oi];
-                oi += 1;
-                let valid = op.track >= 1 && (op.track as usize) <= run.tracks_added;
-                match o {
-                    CallOutcome::Err(_) if valid => rejected_valid = true,
-                    CallOutcome::Ok if !valid => fail!("c01:accepted-bad-track", "write_sample(track {}) returned Ok with {} tracks", op.track, run.tracks_added),
-                    _ => {}
-                }
-            }
-            (_, CallOutcome::Err(_)) => rejected_valid = true,
-            _ => {}
-        }
+    // calls inside the documented domain must be accepted, or the history is outside the property
+    let v = mux::judge_calls(case, &run);
+    if v.accepted_bad_sample {
+        fail!("c01:accepted-bad-track", "write_sample with an unknown track id returned Ok ({} tracks)", run.tracks_added);
+    }
+    let (rejected_valid, had_rejected_track) = (v.rejected_valid, v.had_rejected_track);
+    if v.accepted_invalid {
+        // the muxer accepted a configuration this harness expected it to reject: ids no longer line
+        // up with the generated history; nothing in the property forbids accepting it
+        ctx.count("hist:muxer-accepted-a-config-expected-to-be-rejected(skipped)");
+        return Ok(());
     }
     if rejected_valid {
         ctx.count("hist:muxer-rejected-a-valid-call(outside-property)");
@@ -180,8 +172,12 @@ pub fn oracle(ctx: &mut Ctx, case: &MuxCase) -> Check {
         ctx.sample("trivial", case);
     }
     // rejected calls leave no trace
-    if case.ops.iter().any(|o| o.track == 0 || (o.track as usize) > run.tracks_added) {
+    if had_rejected_track {
+        ctx.count("hist:rejected-add_track");
+    }
+    if had_rejected_track || case.ops.iter().any(|o| o.track == 0 || (o.track as usize) > run.tracks_added) {
         let mut clean = case.clone();
+        clean.tracks.retain(mux::expect_accept);
         clean.ops.retain(|o| o.track >= 1 && (o.track as usize) <= run.tracks_added);
         // sample payload patterns are keyed by per-track index of *accepted* samples, so unchanged
         let (run2, bytes2) = mux::run_mux_vec(&clean);
